@@ -54,6 +54,21 @@ def _subst_closure(e, captures, args):
 _INLINING = set()
 
 
+import re as _re
+_FROM = _re.compile(r"(core::convert::From<[^>]*(?:<[^>]*>[^>]*)*>>::from$|<impl core::convert::From<.*> for .*>::from$)")
+
+
+def _residual_conversion(e):
+    """does this `?` convert the error type (Result<_, E2> into Result<_, E1>, E1 != E2)?"""
+    targs = e[3] if len(e) > 3 else ()
+    if len(targs) >= 2:
+        m1 = _re.match(r"^core::result::Result<.*, (.*)>$", targs[0])
+        m2 = _re.match(r"^core::result::Result<core::convert::Infallible, (.*)>$", targs[1])
+        if m1 and m2:
+            return m1.group(1) != m2.group(1)
+    return False
+
+
 class Algebra:
     def __init__(self, crate, depth=0):
         self.crate = crate
@@ -211,9 +226,10 @@ class Algebra:
                     out = []
                     if "core::option::Option<" in x[1][1][1]:
                         return [((), ("agg", NONE, ()))]
+                    conv = _residual_conversion(e)
                     for at, v in self.split(src, OK, ERR, IS_OK):
                         if _is_agg(v, ERR):
-                            out.append((at, v))
+                            out.append((at, ("agg", ERR, (("call", "From::from", (v[2][0],), ()),)) if conv else v))
                     return out
             inl = self.inline_private(c, a)
             if inl is not None:
@@ -280,10 +296,22 @@ class Algebra:
                     out.append((at + ((("call", test, (v,), ()), False),), ("agg", no, (payload(v, "Err"),))))
         return out
 
-    def rewrite(self, e):
-        """`(branch(x) as Continue).0` is the Ok/Some payload of x"""
+    def _fold_payloads(self, e):
+        """`(Ok{x} as Ok).0` is x; `(Err{y} as Err).0` is y"""
         if not isinstance(e, tuple) or not e:
             return e
+        e = tuple(self._fold_payloads(x) if isinstance(x, tuple) else x for x in e)
+        if e[0] == "field" and e[2] == "0" and e[1][0] == "variant" and e[1][1][0] == "agg" and e[1][1][1].endswith("::" + e[1][2]) and e[1][1][2]:
+            return e[1][1][2][0]
+        return e
+
+    def rewrite(self, e):
+        """`(branch(x) as Continue).0` is the Ok/Some payload of x; an error conversion reads
+        `From::from(x)` whether it was written out or inserted by `?`"""
+        if not isinstance(e, tuple) or not e:
+            return e
+        if e[0] == "call" and isinstance(e[1], str) and len(e[2]) == 1 and _FROM.search(e[1]):
+            return ("call", "From::from", (self.rewrite(e[2][0]),), ())
         if e[0] == "field" and e[1][0] == "variant" and e[1][2] == "Continue" and e[1][1][0] == "call" and str(e[1][1][1]).endswith("Try>::branch"):
             src = self.rewrite(e[1][1][2][0])
             return payload(src, "Some" if "core::option::Option<" in e[1][1][1] else "Ok")
@@ -318,15 +346,26 @@ class Algebra:
                 for bb in [blk] + blocks:
                     nxt = []
                     for base in bases:
-                        for cs in pc.conditions(bb):
+                        for cs in pc.conditions(bb, keep_phi=True):
                             if any(e2 == e1 and S._contradict(v1, v2) for (e1, v1) in base for (e2, v2) in cs):
                                 continue
                             nxt.append(base | cs)
                     bases = nxt
+                v_in = v
                 for cs in bases:
+                    # the value of a local assigned on the branch taken (`let parsed = match ..;` and
+                    # a later `match parsed`): substituted into the returned value
+                    env = {e2[1]: x for (e2, x) in cs if e2[0] == "phi"}
+                    cs = frozenset(at for at in cs if at[0][0] != "phi")
+                    v = S.subst_locals(v_in, env) if env and S._mentions_local(v_in, set(env)) else v_in
+                    if v is not v_in:
+                        # the substituted value may itself be expandable (Ok(x) / Err(y) now visible)
+                        v = self.rewrite(self._fold_payloads(v))
                     cur = set(cs)
                     bad = False
                     for (ee, val) in extra:
+                        if env and S._mentions_local(ee, set(env)):
+                            ee = self._fold_payloads(S.subst_locals(ee, env))
                         if ee[0] == "effect":
                             cur.add((self.rewrite(ee), val))
                             continue
